@@ -53,7 +53,7 @@ Theorem C11_hyperband_stopped : ∀ (V : Type) (h : hcfg) (mk : hinfo → V) vde
 Proof. exact @hpopulate_stopped. Qed.
 Theorem C11_random_stopped : ∀ samp draw mc a ts busy id,
   snd (fst (rpopulate samp draw mc a ts busy id)) = STOPPED →
-  ∃ seed', random_values samp mc (S (S mc)) (s_space (a_osp a)) (a_tried a) (a_seed a) 0 = (None, seed').
+  ∃ seed', random_values samp draw mc (S (S mc)) (s_space (a_osp a)) (a_tried a) (a_seed a) 0 = (None, seed').
 Proof. exact rpopulate_stopped. Qed.
 
 Print Assumptions C11_idle_only_if_busy.
